@@ -2508,6 +2508,9 @@ impl Database {
                     _ => None,
                 };
                 if let Some(aop) = arith_op {
+                    if left_val.is_null() || right_val.is_null() {
+                        return Ok(OwnedValue::Null);
+                    }
                     OwnedValue::eval_arithmetic(&left_val, aop, &right_val).ok_or_else(|| {
                         eyre::eyre!("unsupported types or division by zero for {:?}", aop)
                     })
